@@ -25,14 +25,30 @@ def stepLine (s : Sys) (line : String) : Sys × String :=
   | ["release", h] => ((s.step (.release h.toNat!)).1, "-")
   | _ => (s, "bad-line")
 
+def cstepLine (s : CSys) (line : String) : CSys × String :=
+  match (line.splitOn " = ").head!.splitOn " " with
+  | ["cnew", cap] => (CSys.init cap.toNat!, "-")
+  | ["cget"] =>
+    let s' := s.step .get
+    -- every continuation the pool holds was zeroed by release; a fresh one is zero
+    (s', s!"{s'.live.head!} 1")
+  | ["crelease", c] => (s.step (.release c.toNat!), "-")
+  | _ => (s, "bad-line")
+
 def main (_args : List String) : IO UInt32 := do
   let stdin ← IO.getStdin
   let stdout ← IO.getStdout
   let st ← IO.mkRef (Sys.init 10 10)
+  let cst ← IO.mkRef (CSys.init 100)
   forEachLine stdin fun line => do
-    let (s', out) := stepLine (← st.get) line
-    st.set s'
-    stdout.putStrLn out
+    if line.startsWith "c" then
+      let (s', out) := cstepLine (← cst.get) line
+      cst.set s'
+      stdout.putStrLn out
+    else
+      let (s', out) := stepLine (← st.get) line
+      st.set s'
+      stdout.putStrLn out
   return 0
 
 end Oracle.C14
